@@ -1,6 +1,7 @@
 import Py4hwV.Drv.Proto
 import Py4hwV.Emit.Cache
 import Py4hwV.Emit.Canon
+import Py4hwV.Emit.Live
 /- C19 driver: generator-state model (Emit.Cache) as a session + Canon on model outputs.
    One request per line; fields separated by '|'; `_` = None; lists comma separated, `-` = empty.
      cleartab                                   empty the staging table                                   -> ok
@@ -16,6 +17,9 @@ import Py4hwV.Emit.Canon
      op getHier <g>|<obj>|<ni01>|<force>|<list>
      state                                      -> cache object ; created list of every generator ; heap
      vcanon <ids> <sexp>                        Canon (V.canon) of a parsed real text: hash + module count     -> h n
+     tr <ctor p:attr:vname,c:attr:int,a:attr:param>|<live k=int,…>|<occs A:name:st01,N:name:st01,W:name>
+                                                Emit.transpile (transpiler vs live object)  -> ok <tok,…> ; <decl,…> | err <i> ; <tok,…> ; <msg> | initerr <msg>
+     trinit <ctor>|<live>                       Emit.extractInit -> ok <ports a=n,…> ; <variables> ; <arguments a=v,…> | initerr <msg>
      canon <0|1>                                answers of getVerilog/getHier are rendered after Canon (ids renumbered by
                                                 first occurrence, declarations sorted) when 1                 -> ok -/
 open Proto Emit
@@ -56,6 +60,26 @@ def parseObj (fs : List String) : Option ObjD :=
            inlinable := flags.contains 'i', providesBody := flags.contains 'b', gated := clockD gated, leafText := leaf }
   | _ => none
 
+def ctorStmt (s : String) : Option CtorStmt :=
+  match s.splitOn ":" with
+  | ["p", a, v] => some (.port a v)
+  | ["c", a, v] => v.toInt?.map (.const a)
+  | ["a", a, q] => some (.arg a q)
+  | _ => none
+
+def occOf (s : String) : Option Occ :=
+  match s.splitOn ":" with
+  | ["A", n, st] => some (.attr n (b01 st))
+  | ["N", n, st] => some (.name n (b01 st))
+  | ["W", n] => some (.wire n)
+  | _ => none
+
+def liveOf (s : String) : Live :=
+  let kv : List (String × Int) := (kvs s).filterMap fun p => p.2.toInt?.map fun v => (p.1, v)
+  fun n => aget kv n
+
+def allSome {α : Type} (l : List (Option α)) : Option (List α) := l.mapM id
+
 def showState (w : World) : String :=
   let c := match w.cache.obj with | none => "_" | some o => toString o
   let cm := ",".intercalate (w.cache.map.map fun kv => s!"{kv.1}={kv.2}")
@@ -90,6 +114,20 @@ def stepLine (ss : Sess) (line : String) : Sess × String :=
     | [o, m] =>
       let mp : NameMap := (kvs m).filterMap fun kv => kv.1.toNat?.map fun k => (k, kv.2)
       ({ ss with w := { ss.w with cache := { obj := optNat o, map := mp } } }, "ok")
+    | _ => (ss, "bad-op")
+  | "tr" => match fs with
+    | [c, lv, oc] =>
+      match allSome ((lst c).map ctorStmt), allSome ((lst oc).map occOf) with
+      | some ctor, some occs => (ss, (transpile { ctor := ctor, occs := occs } (liveOf lv)).render)
+      | _, _ => (ss, "bad-op")
+    | _ => (ss, "bad-op")
+  | "trinit" => match fs with
+    | [c, lv] =>
+      match allSome ((lst c).map ctorStmt) with
+      | some ctor => (ss, match extractInit (liveOf lv) ctor {} with
+          | .ok i => "ok " ++ i.render
+          | .error e => "initerr " ++ e)
+      | none => (ss, "bad-op")
     | _ => (ss, "bad-op")
   | "canon" => ({ ss with canon := b01 rest }, "ok")
   | "state" => (ss, showState ss.w)
